@@ -383,6 +383,15 @@ IfaceFaulty == {WithFault(Iface, "r1", at, h) : at \in {1, 2}, h \in {"nil", "er
 Faulty == Sane(FaultyAll) \cup CancelFaulty \cup IfaceFaulty \cup Sane(TransFaulty) \cup Sane(BuiltinFaulty)
 NilFaulty == {WithFault(Basic, r, 1, "nil") : r \in {"r1", "r2", "r3"}}
 
+\* a constructor failure AND a failing Close of something the failed call had already created: the clean-up of a
+\* failed Build / a failed scope creation meets a disposal error - the call still reports the constructor's failure
+\* (classifiable, cause reachable), everything is still closed
+AlsoCloseErr(c, regs) == [c EXCEPT !.cid = @ \o "+ce" \o regs[1], !.closeerr = regs]
+FaultCloseErrs == {AlsoCloseErr(WithFault(SingChain, r, 1, h), ce) : r \in {"r2", "r3"}, h \in Hows, ce \in {<<"r1">>, <<"r1", "r2">>}}
+             \cup {AlsoCloseErr(WithFault(Inits, "r4", at, h), <<"r3">>) : at \in {1, 2}, h \in Hows}
+             \cup {AlsoCloseErr(WithFault(TransThenFail, "r3", 1, h), <<"r1">>) : h \in Hows}
+             \cup {AlsoCloseErr(WithFault(Basic, "r2", 1, h), <<"r3">>) : h \in Hows}
+
 CloseErrs == {WithCloseErr(Basic, ce) : ce \in {<<"r1">>, <<"r2">>, <<"r3">>, <<"r1", "r2">>, <<"r2", "r3">>, <<"r1", "r2", "r3">>}}
         \cup {WithCloseErr(Chain, ce) : ce \in {<<"r1">>, <<"r3">>, <<"r1", "r2", "r3">>}}
         \cup {WithCloseErr(Multi, ce) : ce \in {<<"r1">>, <<"r2">>}}
@@ -404,4 +413,5 @@ CfgAll == Plain \cup Defective
 CfgFaults == Faulty
 CfgNil == NilFaulty
 CfgCloseErrs == CloseErrs
+CfgFaultCloseErrs == Sane(FaultCloseErrs)
 =============================================================================
